@@ -24,7 +24,7 @@ impl LogicalLineFileFormatter for TokenSpacing {
                     the next token if it is on another line. This is an issue
                     if these tokens get unwrapped.
                 */
-                Some(TT::Identifier) => (None, Some(1)),
+                Some(TT::Identifier | TT::NumberLiteral(_)) => (None, Some(1)),
                 _ => max_one_either_side(token_index, formatted_tokens),
             };
 
